@@ -2,5 +2,4 @@
 #[cfg(stageleft_runtime)]
 hydro_lang::setup!();
 
-#[cfg(feature = "harness")]
 pub mod progs;
